@@ -1,5 +1,26 @@
 """Constants of the roller-shutter / facade-blind module (C09, C10), regenerated from /repo."""
 import gen as G
+import os, re
+
+def _relay_hi_rs_writes():
+    """fields of the shutter record that supla_esp_gpio_relay_hi assigns (textual pattern over the function body in the working tree):
+    a sorted, comma separated list such as "start_time,stop_time"; an added write (e.g. last_time) changes the generated constant"""
+    try:
+        txt = open(os.path.join(G.REPO, 'src', 'user', 'supla_esp_gpio.c')).read()
+    except OSError:
+        return 'UNREADABLE'
+    m = re.search(r'\bsupla_esp_gpio_relay_hi\s*\([^)]*\)\s*\{', txt)
+    if not m: return 'NOT-FOUND'
+    i = m.end(); depth = 1
+    while i < len(txt) and depth:
+        depth += {'{': 1, '}': -1}.get(txt[i], 0); i += 1
+    body = re.sub(r'//[^\n]*|/\*.*?\*/', '', txt[m.end():i], flags=re.S)
+    fields = set(re.findall(r'rs_cfg\s*->\s*(\w+)\s*(?:[-+*/|&^]|<<|>>)?=(?!=)', body))
+    fields |= set(re.findall(r'(?:\+\+|--)\s*rs_cfg\s*->\s*(\w+)|rs_cfg\s*->\s*(\w+)\s*(?:\+\+|--)', body) and
+                  [x for t in re.findall(r'(?:\+\+|--)\s*rs_cfg\s*->\s*(\w+)|rs_cfg\s*->\s*(\w+)\s*(?:\+\+|--)', body) for x in t if x])
+    return ','.join(sorted(fields))
+
+_RH = _relay_hi_rs_writes()
 
 G.GROUPS['RsConsts'] = dict(
     pre='#include <stddef.h>\n#include <os_type.h>\n#include <osapi.h>\n#include <supla_esp.h>\n#include <supla_esp_cfg.h>\n'
@@ -60,9 +81,10 @@ G.GROUPS['RsConsts'] = dict(
     fprintf(stdout, "I GETTER_POS_LO %lld\\nI GETTER_POS_HI %lld\\nI GETTER_TILT_FIRST_NONZERO %lld\\nI GETTER_TILT_HI %lld\\n", plo, phi, tlo + 0, thi);
     fprintf(stdout, "I GETTER_POS_OUTSIDE_KNOWN %lld\\nI GETTER_TILT_OUTSIDE_KNOWN %lld\\nI GETTER_POS_ROUNDING_DIFFERS %lld\\nI GETTER_TILT_ROUNDING_DIFFERS %lld\\n", pbad, tbad, prnd, trnd);
     fprintf(stdout, "I GETTER_TILT_BELOW_NONZERO %lld\\n", tbelow);
+    fprintf(stdout, "S RELAY_HI_RS_WRITES"); { const char *w = "'''+_RH+'''"; for (; *w; w++) fprintf(stdout, " %u", (unsigned char)*w); } fprintf(stdout, "\\n");
     tty = 0; T = 5100; fprintf(stdout, "I GETTER_TILT_UNSUPPORTED %d\\n", (int)supla_esp_gpio_rs_get_current_tilt(&rc));
   }
 ''',
     extra_names=['GETTER_POS_LO', 'GETTER_POS_HI', 'GETTER_TILT_FIRST_NONZERO', 'GETTER_TILT_HI', 'GETTER_TILT_BELOW_NONZERO', 'GETTER_POS_OUTSIDE_KNOWN', 'GETTER_TILT_OUTSIDE_KNOWN',
-                 'GETTER_POS_ROUNDING_DIFFERS', 'GETTER_TILT_ROUNDING_DIFFERS', 'GETTER_TILT_UNSUPPORTED'],
+                 'GETTER_POS_ROUNDING_DIFFERS', 'GETTER_TILT_ROUNDING_DIFFERS', 'GETTER_TILT_UNSUPPORTED', 'RELAY_HI_RS_WRITES'],
 )
